@@ -232,6 +232,8 @@ contract(
             "all(result['end'][i] - result['start'][i] == num // nchunks + (1 if i < num % nchunks else 0)"
             " for i in range(0, nchunks))",
     },
+    rt_ensures={"a-new-array-on-every-call (what a caller does with one result cannot reach the next call)":
+                "isplit_is_fresh(num, nchunks, result)"},
     asserts={
         "L0:before": {
             # closed form of the cumulative sum of [0] + extras*[q+1] + (nchunks-extras)*[q]
@@ -246,6 +248,22 @@ contract(
     },
     props=["C20"],
 )
+
+
+def isplit_is_fresh(num, nchunks, result):
+    """bounded only: the prover sees the function body, not a decorator or a cache wrapped around it"""
+    import numpy as np
+    import esutil.algorithm as alg
+    if nchunks <= 0:
+        return True
+    again = alg.isplit(num, nchunks)
+    if again is result or np.shares_memory(again, result):
+        return False
+    keep = result.copy()
+    again["start"] += 7
+    again["end"] -= 3
+    third = alg.isplit(num, nchunks)
+    return bool(np.array_equal(third, keep))
 
 
 @domain("esutil.algorithm.isplit")
